@@ -204,6 +204,8 @@ fn run_child_rw(h: &serde_json::Value, cfg: &Config, read_write: Option<(&str, &
     if let Some((r, w)) = read_write {
         cmd.env("NUN_STORAGE_READ_STRATEGY", r).env("NUN_STORAGE_WRITE_STRATEGY", w);
     }
+    // (a loader that takes garbage for a length must end as a failed run of the child, not take the machine down)
+    cap_child_memory_gib(&mut cmd, 8);
     let out = cmd
         .args(["c18-child", "x", &h.to_string(), dir])
         .env("NUN_STORAGE_STRATEGY", cfg.strategy)
